@@ -1062,6 +1062,9 @@ fn preprocess_command(
 ) -> Result<(), PreprocessError> {
     let command_location = command[0].get_location();
 
+    #[cfg(trark_rssl_verif)]
+    verif::record(condition_chain, macros);
+
     // Split the base command name
     let (command_name, command) = match command {
         [PreprocessToken(Token::Id(id), _), rest @ ..] => (id.0.as_str(), rest),
@@ -1386,6 +1389,9 @@ fn preprocess_initial_file(
         &mut condition_chain,
     )?;
 
+    #[cfg(trark_rssl_verif)]
+    verif::record(&condition_chain, &macros);
+
     if !condition_chain.0.is_empty() {
         return Err(PreprocessError::ConditionChainNotFinished);
     }
@@ -1444,4 +1450,46 @@ pub fn prepare_tokens(source: &[PreprocessToken]) -> Vec<LexToken> {
         .collect::<Vec<_>>();
     source.push(LexToken(Token::Eof, SourceLocation::UNKNOWN));
     source
+}
+
+/// Verification hook: exposes the conditional-inclusion state carried between directives
+#[cfg(trark_rssl_verif)]
+pub mod verif {
+    use super::{ConditionChain, ConditionState, Macro};
+    use std::cell::RefCell;
+
+    /// (chain states: 0 = Enabled, 1 = DisabledInner, 2 = DisabledOuter; names of defined macros in definition order)
+    pub type CondSnapshot = (Vec<u8>, Vec<String>);
+
+    thread_local! {
+        static TRACE: RefCell<Option<Vec<CondSnapshot>>> = const { RefCell::new(None) };
+    }
+
+    /// Start recording: one snapshot before every directive and one at the end of the entry file
+    pub fn start_trace() {
+        TRACE.with(|t| *t.borrow_mut() = Some(Vec::new()));
+    }
+
+    /// Stop recording and return the snapshots
+    pub fn take_trace() -> Vec<CondSnapshot> {
+        TRACE.with(|t| t.borrow_mut().take().unwrap_or_default())
+    }
+
+    pub(super) fn record(chain: &ConditionChain, macros: &[Macro]) {
+        TRACE.with(|t| {
+            if let Some(trace) = t.borrow_mut().as_mut() {
+                let states = chain
+                    .0
+                    .iter()
+                    .map(|s| match s {
+                        ConditionState::Enabled => 0,
+                        ConditionState::DisabledInner => 1,
+                        ConditionState::DisabledOuter => 2,
+                    })
+                    .collect();
+                let names = macros.iter().map(|m| m.name.clone()).collect();
+                trace.push((states, names));
+            }
+        });
+    }
 }
